@@ -910,8 +910,10 @@ def replay_gen(gen, case):
                      % (what, out.shape[0]))]
         return []
     bad = []
-    if out.shape[0] != gen["outlen"]:
-        return [("gen:incoh:length", "%s returned %d samples, spec says %d" % (what, out.shape[0], gen["outlen"]))]
+    if out.shape[0] > gen["outlen"]:
+        return [("gen:incoh:length", "%s returned %d samples, only %d have in-range sources" % (what, out.shape[0], gen["outlen"]))]
+    if out.shape[0] < gen["outlen"]:
+        return []       # fewer than all valid samples: not excluded by the property; judged by the trace clauses
     src, ok = decode_ident(out, case["nchan"])
     if not ok:
         bad.append(("gen:incoh:channel-or-trailing-moved", "%s: samples moved across channels / trailing axes" % what))
